@@ -11,6 +11,7 @@ verus! {
 //@include spec/ctl.rs
 //@include spec/lowlevel.rs
 //@include spec/ctl_laws.rs
+broadcast use iset_laws::lemma_iset_intersect_comm, iset_laws::lemma_iset_union_comm;
 //@fmtfns
 
 // ---------------- hctl_operators_eval.rs
